@@ -155,20 +155,26 @@ Inductive lexres :=
 | LName (name : str) (newpos : nat)
 | LCrash.                              (* consumed_positions[index - 1] with index = 0 *)
 
-(* consume_name at position pos (which holds a name start character); till_in = the flag set by for / some / every *)
-Definition lex_name (keys : list str) (till_in : bool) (inp : str) (pos : nat) : lexres :=
+(* consume_name at position pos (which holds a name start character); till_in = the flag set by for / some / every.
+   guard = true: the repaired code (`in` as the first part is not a variable boundary: the branch is skipped);
+   guard = false: the original, which indexed consumed_positions[index - 1] with index = 0 *)
+Definition lex_name_gen (guard : bool) (keys : list str) (till_in : bool) (inp : str) (pos : nat) : lexres :=
   let '(parts, cps, endpos) := collect inp pos in
+  let regular :=
+    match search keys parts (length parts) with
+    | Some pc => LName (name_new (firstn pc parts)) (S (nth (pc - 1) cps 0))
+    | None => LName (name_new parts) endpos
+    end in
   if match parts with p :: _ => str_eqb p str_item | [] => false end then LName str_item (S (nth 0 cps 0))
   else
     match (if till_in then index_of str_in parts 0 else None) with
-    | Some O => LCrash
+    | Some O => if guard then regular else LCrash
     | Some (S i) => LName (name_new (firstn (S i) parts)) (S (nth i cps 0))
-    | None =>
-      match search keys parts (length parts) with
-      | Some pc => LName (name_new (firstn pc parts)) (S (nth (pc - 1) cps 0))
-      | None => LName (name_new parts) endpos
-      end
+    | None => regular
     end.
+
+Definition lex_name : list str -> bool -> str -> nat -> lexres := lex_name_gen true.
+Definition lex_name_orig : list str -> bool -> str -> nat -> lexres := lex_name_gen false.
 
 (* ------------------------------------------------------------------ a small token stream around it (names, numerals, one-character symbols) *)
 
